@@ -213,3 +213,61 @@ class DistZeros(E2Contract):
             rows = [sum((exp[i * shape[1] + j] for j in range(shape[1])), 0 * ps[0]) for i in range(shape[0])]
             cl.append(eq("marginal-after-zeroing", out["m0"], rows, "marginal of the stored (zeroed, renormalised) table"))
         return cl
+
+
+class EnsembleLayout(E2Contract):
+    """ensembles produced by one or two measurements index states and probabilities with the same row-major layout"""
+    name = "StateEnsemble layout"
+    prop = "C16"
+    targets = ("quara.objects.state_ensemble:StateEnsemble.state", "quara.objects.operators:_compose_qoperations_MProcess_StateEnsemble",
+               "quara.objects.operators:_compose_qoperations_MProcess_State")
+    frame = False
+    max_paths = 16
+    n_conformance = 1
+
+    def configs(self, tier):
+        return [(2,), (3,), (2, 3), (3, 2)] + ([(4,), (2, 4), (4, 3)] if tier == "thorough" else [])
+
+    def inputs(self, W, cfg, mk):
+        from .C06_all import param_obj, spec_chain, EPS
+        from ._cfg import stacked
+        c_sys = make_csys(W, "1q")
+        st = param_obj(W, mk, "state", c_sys, 0, "s")
+        mps = [param_obj(W, mk, "mprocess", c_sys, m, f"m{i}_") for i, m in enumerate(cfg)]
+        chain = [("mprocess", stacked(W, mp)) for mp in reversed(mps)] + [("state", [st.vec])]
+        for j in range(len(chain) - 1):
+            kind, ref = spec_chain(W, c_sys, chain[j:])
+            for idx, v in ref.items():
+                mk.require(v[0] >= 2 * EPS)
+        kind, ref = spec_chain(W, c_sys, chain)
+        return dict(st=st, mps=mps, ref=ref)
+
+    def sample(self, cfg, names, rng):
+        vals = {n: rng.uniform(-0.05, 0.05) for n in names}
+        for i, m in enumerate(cfg):
+            for x in range(m - 1):
+                vals[f"m{i}__{x * 16}"] = 1.0 / m + rng.uniform(-0.03, 0.03)
+        return vals
+
+    def run(self, W, cfg, inp):
+        ops = W.mod("quara.objects.operators")
+        r = inp["st"]
+        for mp in inp["mps"]:
+            r = ops.compose_qoperations(mp, r)
+        idxs = list(itertools.product(*[range(m) for m in cfg]))
+        return dict(shape=list(r.prob_dist.shape), by_tuple=[r.state(i).vec for i in idxs], by_serial=[r.state(k).vec for k in range(len(idxs))],
+                    p_tuple=[r.prob_dist[i] for i in idxs], p_serial=[r.prob_dist[k] for k in range(len(idxs))])
+
+    def post(self, W, cfg, inp, out):
+        S = W.S
+        c_sys = inp["st"].composite_system
+        ref = inp["ref"]
+        idxs = list(itertools.product(*[range(m) for m in cfg]))
+        cl = [eq("shape", out["shape"], list(cfg), "outcome shape == outcome counts in time order (earlier measurement first)"),
+              eq("state(tuple)==state(serial)", out["by_tuple"], out["by_serial"], "multi-index and serial index address the same state (row-major)"),
+              eq("prob(tuple)==prob(serial)", out["p_tuple"], out["p_serial"], "multi-index and serial index address the same probability"),
+              eq("probabilities", out["p_tuple"], [ref[i][0] for i in idxs], "probability of outcome (x1,..) == Tr of the branch operator")]
+        for k, i in enumerate(idxs):
+            cl.append(eq(f"state[{i}]", S.op_from_vec(c_sys, out["by_tuple"][k]) * ref[i][0], ref[i][1],
+                         "state(x1,..) is the post-measurement state of exactly that outcome sequence"))
+        return cl
